@@ -1,12 +1,14 @@
 #!/bin/bash
-# usage: tools/seed_regress.sh [ids...]  -- run the quick check of every seeded change in /verif/seeded against a scratch
-# worktree of /repo with the seed applied; expect exit 1 each time.  Prints one line per seed.
-cd /verif
+# usage: tools/seed_regress.sh [ids...]  -- run the quick check of every seeded change in seeded/ against a scratch
+# worktree of /repo with the seed applied; expect exit 1 each time.  Prints one line per seed.  Location independent
+# (works from a snapshot of /verif).
+here=$(cd "$(dirname "$0")/.." && pwd)
+cd "$here"
 ids=${@:-$(ls seeded)}
 for id in $ids; do
   wt=/tmp/vfr.$id.$$
   git -C /repo worktree add -q --detach "$wt" HEAD || continue
-  if git -C "$wt" apply "/verif/seeded/$id/patch.diff"; then
+  if git -C "$wt" apply "$here/seeded/$id/patch.diff"; then
     prop=${id%%-*}
     VERIF_REPO="$wt" ./check "$prop" --tier quick >/tmp/vfr.$id.out 2>/dev/null </dev/null; rc=$?
     echo "SEED $id quick_exit=$rc $(grep -c VIOLATION /tmp/vfr.$id.out) violation lines"
@@ -14,5 +16,5 @@ for id in $ids; do
     echo "SEED $id patch-does-not-apply"
   fi
   git -C /repo worktree remove --force "$wt"
-  rm -f /verif/replays/${id%%-*}-*.json
+  rm -f "$here"/replays/${id%%-*}-*.json /tmp/vfr.$id.out
 done
